@@ -78,7 +78,8 @@ def _directed(chk):
     with exact() as alg:
         red = Reducer(alg)
         yv = sp.symbols("u0:8", real=True)
-        bv = [sp.Function("g%d" % k)(*yv) for k in range(8)]
+        gk = [sp.Function("g%d" % k) for k in range(8)]
+        bv = lambda tau: [g(tau, *yv) for g in gk]
 
         class Base(base._DynamicalSystem):
             def __init__(self):
@@ -90,11 +91,11 @@ def _directed(chk):
                 return 8
 
             def _build_rhs_impl(self):
-                return lambda t, yy: xarr(bv)
+                return lambda t, yy: xarr(bv(val(t)))
 
             @property
             def rhs(self):
-                return lambda t, yy: xarr(bv)
+                return lambda t, yy: xarr(bv(val(t)))
 
         def th():
             tt = X(sp.Symbol("t", real=True))
@@ -106,13 +107,28 @@ def _directed(chk):
                 rhs = ds._build_rhs_impl()
                 yin = xarr(yv)
                 out = vals(rhs(tt, yin))
+                want = bv(fwd * val(tt))        # integration time s is physical time fwd * s
                 for k in range(8):
-                    require_identity(red, out[k], sign[k] * bv[k], key_prefix=f"fwd={fwd} flip={flip}: component {k}")
+                    require_identity(red, out[k], sign[k] * want[k], key_prefix=f"fwd={fwd} flip={flip}: component {k}")
                 for a, b in zip(vals(yin), yv):
                     require_identity(red, a, b, key_prefix="input state mutated")
-        chk.obl("_DirectedSystem rhs: fwd=+1 -> base; fwd=-1,flip=None -> -base; fwd=-1,flip=S -> negated exactly on S; "
-                "input untouched", "K1 identity", [BA + ":_DirectedSystem._build_rhs_impl", BA + ":_DirectedSystem.__init__"],
+        chk.obl("_DirectedSystem rhs(s, y): fwd=+1 -> base(s, y); fwd=-1,flip=None -> -base(-s, y); fwd=-1,flip=S -> base(-s, y) "
+                "negated exactly on S; input untouched", "K1 identity", [BA + ":_DirectedSystem._build_rhs_impl", BA + ":_DirectedSystem.__init__"],
                 "B3 sympy normal form", th)
+
+
+_REPLAY_NONAUT = """
+import numpy as np
+from hiten.algorithms.dynamics.rhs import create_rhs_system
+from hiten.algorithms.dynamics.base import _propagate_dynsys
+sysm = create_rhs_system(lambda t, y: np.array([1.0 + t]), dim=1, name="y' = 1 + t")     # y(t) = t + t^2/2
+bad = False
+for method in ("fixed", "adaptive"):
+    sol = _propagate_dynsys(sysm, np.array([0.0]), 0.0, 1.0, forward=-1, steps=11, method=method, order=8)
+    print(method, "t_end", float(sol.times[-1]), "y_end", float(sol.states[-1, 0]), "exact y(-1) = -0.5")
+    bad = bad or abs(float(sol.states[-1, 0]) + 0.5) > 1e-6
+print("CONFIRMED" if bad else "NOT-CONFIRMED")
+"""
 
 
 def _times(chk):
@@ -132,7 +148,7 @@ def _times(chk):
             return 2
 
         def _build_rhs_impl(self):
-            return lambda t, y: y
+            return lambda t, y: y * (1.0 + t)       # time dependent on purpose ("user rhs" is in the property's quantifier)
 
     def run(method, forward):
         rec = {}
@@ -141,10 +157,12 @@ def _times(chk):
 
         def fixed(f, yy, t, *a):
             rec["grid"] = _np.array(t)
+            rec["f"] = f
             return _np.zeros((len(t), 2)), _np.zeros((len(t), 2))
 
         def dop(**kw):
             rec["grid"] = _np.array(kw["t_eval"])
+            rec["f"] = kw["f"]
             return _np.zeros((len(kw["t_eval"]), 2)), _np.zeros((len(kw["t_eval"]), 2))
 
         def sympl(**kw):
@@ -207,10 +225,85 @@ def _times(chk):
                         raise Refuted("symplectic-grid", f"low-level symplectic routine received {list(g)}")
                 elif not _np.array_equal(g, _np.linspace(0.0, 1.5, 4)):
                     raise Refuted("driver-grid", f"driver received {list(g)} (direction must be carried by the directed system)")
+                if method != "symplectic":
+                    # the field the driver integrates over s in [t0, tf] must be the one of y(forward * s):
+                    # d/ds y(forward*s) = forward * f(forward*s, y)   (property: "the state the flow had at time -t")
+                    yt = _np.array([0.5, -2.0])
+                    got = _np.asarray(rec["f"](0.25, yt), dtype=float)
+                    want_f = forward * yt * (1.0 + forward * 0.25)
+                    if not _np.allclose(got, want_f, rtol=0, atol=1e-15):
+                        auton = _np.allclose(got, forward * yt * 1.25, rtol=0, atol=1e-15)
+                        raise Refuted("driver integrates " + ("forward*f(s, y) instead of forward*f(forward*s, y): wrong for "
+                                      "time-dependent right-hand sides" if auton else "a field that is not the directed one"),
+                                      f"f_dir(0.25, {yt.tolist()}) = {got.tolist()}, want {want_f.tolist()}",
+                                      replay=_REPLAY_NONAUT, inputs={"method": method, "forward": forward})
             chk.obl(f"_propagate_dynsys(method={method}, forward={forward:+d}): times == forward*linspace(t0,tf,steps); "
                     f"driver grid as documented", "K2 wiring (real _propagate_dynsys + real integrate(), drivers recorded)",
                     [BA + ":_propagate_dynsys", RK + ":_FixedStepRK.integrate", RK + ":_DOP853.integrate",
                      SY + ":_ExtendedSymplectic.integrate"], "B4 exact evaluation", th)
+
+
+_REPLAY_SPAN = """
+import numpy as np
+from hiten.algorithms.dynamics.rhs import create_rhs_system
+from hiten.algorithms.dynamics.base import _propagate_dynsys
+from hiten.algorithms.integrators.rk import RungeKutta, AdaptiveRK
+sysm = create_rhs_system(lambda t, y: np.array([1.0]), dim=1, name="y' = 1")
+bad = False
+for t0, span in ((1000.0, 0.005), (0.0, 5e-9)):
+    sol = _propagate_dynsys(sysm, np.array([0.0]), t0, t0 + span, forward=1, steps=3, method="fixed", order=4)
+    print("_propagate_dynsys", t0, span, "y_end - span =", float(sol.states[-1, 0]) - span)
+    bad = bad or abs(float(sol.states[-1, 0]) - span) > 1e-3 * span
+    for integ in (RungeKutta(order=4), AdaptiveRK(order=8)):
+        sol = integ.integrate(sysm, np.array([0.0]), np.linspace(t0, t0 + span, 3))
+        print(type(integ).__name__, t0, span, "y_end - span =", float(sol.states[-1, 0]) - span)
+        bad = bad or abs(float(sol.states[-1, 0]) - span) > 1e-3 * span
+print("CONFIRMED" if bad else "NOT-CONFIRMED")
+"""
+
+
+def _zero_span(chk):
+    """the constant-solution short cut is taken only for a span of exactly zero length"""
+    import hiten.algorithms.dynamics.base as base
+    import hiten.algorithms.integrators.base as ib
+    import hiten.algorithms.integrators.rk as rk
+
+    class Sys(base._DynamicalSystem):
+        def __init__(self):
+            self._dim = 1
+            self._rhs_compiled = None
+
+        @property
+        def dim(self):
+            return 1
+
+        def _build_rhs_impl(self):
+            return lambda t, y: _np.ones(1)
+
+    def th():
+        for t0, span in ((1000.0, 0.005), (0.0, 5e-9), (-3.0, 1e-6), (0.0, 0.0), (7.0, 0.0)):
+            called = []
+            saved = rk._FixedStepRK._integrate_fixed_rk
+            rk._FixedStepRK._integrate_fixed_rk = staticmethod(
+                lambda f, yy, t, *a: called.append(1) or (_np.zeros((len(t), 1)), _np.zeros((len(t), 1))))
+            try:
+                sol = base._propagate_dynsys(Sys(), _np.array([0.0]), t0, t0 + span, forward=1, steps=3, method="fixed", order=4)
+            finally:
+                rk._FixedStepRK._integrate_fixed_rk = saved
+            if span > 0 and not called:
+                raise Refuted(f"a span of length {span} at t0 = {t0} is treated as empty: the initial state is returned at every "
+                              f"output time without integrating", "_propagate_dynsys / integrate() short cut",
+                              replay=_REPLAY_SPAN, inputs={"t0": t0, "span": span})
+            if span == 0 and not _np.array_equal(sol.states, _np.zeros((3, 1))):
+                raise Refuted("zero-length span does not return the constant solution", str(sol.states))
+            r = ib._Integrator._maybe_constant_solution(_Obj(), Sys(), _np.array([0.0]), _np.linspace(t0, t0 + span, 3))
+            if (r is not None) != (span == 0):
+                raise Refuted(f"_maybe_constant_solution: span {span} at t0 = {t0} " + ("is treated as empty" if span > 0 else
+                              "is not recognised as empty"), "", replay=_REPLAY_SPAN, inputs={"t0": t0, "span": span})
+    chk.obl("constant-solution short cut (in _propagate_dynsys and in integrate()) is taken iff the span has zero length "
+            "(closed instances: spans 5e-9 .. 5e-3 at t0 = 0, -3, 1000)", "K5 closed",
+            [BA + ":_propagate_dynsys", "hiten.algorithms.integrators.base:_Integrator._maybe_constant_solution"],
+            "B4 exact evaluation", th)
 
 
 def _grid_direction(chk):
@@ -575,6 +668,7 @@ def run(chk):
                     "dense-output phase of adaptive drivers beyond the bounded instance")
     _directed(chk)
     _times(chk)
+    _zero_span(chk)
     _grid_direction(chk)
     _stepping_loop(chk, "rk45")
     _stepping_loop(chk, "dop853")
